@@ -173,6 +173,7 @@ func countSpecials(v interface{}) (n int, lit bool) {
 }
 
 func checkC06(c CaseC06, info *Info) *Failure {
+	bystanders() // conversions (also failing ones) that ran before must not matter
 	defer resetOptions()
 	info.Class("clause " + c.Clause)
 	if c.Clause == "roundtrip" {
